@@ -129,6 +129,9 @@ def convert(env_a, ta, env_b, tb, v):
                     out[n] = zero(env_b, ftb)
             return out
         if ra[0] == "enum" and rb[0] == "enum":
+            lo, hi = M.INT_RANGE[rb[1].base or "int32"]
+            if not (lo <= v <= hi):
+                raise Unconvertible("enum value outside the target's base type")
             return v
         raise Unconvertible("record/enum mismatch")
     if isinstance(ra, tuple) or isinstance(rb, tuple):
@@ -351,13 +354,29 @@ def make_chain(rng):
                 d.steps.append(("evo52", M.Vec(M.Named("EvoPair"), 2), rq.chance(0.5)))
                 d.steps.append(("evo53", M.Named("EvoPair"), False))
         ro = ("EvoPair",)
+    # a chain that yardl documents as incompatible and is expected to reject (discarded and counted then): the base type of an
+    # enumeration gets wider.  The property speaks of what yardl *accepts* - if it accepts this, the data must survive it
+    eb = ()
+    re_ = rng.fork("evoenumbase")
+    if re_.chance(0.08):
+        fn0 = sorted(base.files)[0]
+        b_ = re_.choice(["int8", "uint8"])
+        vals_ = [("off", 0), ("low", 1), ("mid", 5), ("high", 100)] + ([("negative", -3), ("floor", -128)] if b_ == "int8" else [("upper", 129), ("ceiling", 255)])
+        base.files[fn0].append(M.Enum("EvoLevel", b_, vals_))
+        for d in base.defs():
+            if isinstance(d, M.Protocol) and d.name != "EvoStill":
+                d.steps.append(("evo60", M.Named("EvoLevel"), False))
+                d.steps.append(("evo61", M.Named("EvoLevel"), True))
+                d.steps.append(("evo62", M.Vec(M.Named("EvoLevel")), False))
+        eb = ("EvoLevel",)
     # ... and one protocol that none of the above touches: it stays as it is through (nearly) all versions, so that the
     # version tables of the generated code have entries that merely repeat the current schema
     base.files[sorted(base.files)[0]].append(M.Protocol("EvoStill", [("count", M.Prim("int32"), False), ("names", M.Prim("string"), True), ("gains", M.Vec(M.Prim("float32")), False)]))
     k = rng.fork("chainshape")
     newest = E.with_versions(base, rng.fork("ver"), k.choice([1, 2, 2, 3]), partial=True, must_edit=must,
                              order=k.choice(["oldest_first", "oldest_first", "newest_first", "shuffled"]), p_new_protocol=k.choice([0.0, 0.4]),
-                             widen_steps=("evo3", "evo4", "evo6", "evo7", "evo10", "value", "values"), widen_aliases=wal, union_steps=ust, to_union_steps=tust, tail_records=tails, fixed_vector_records=fvr, reorder_only=ro)
+                             widen_steps=("evo3", "evo4", "evo6", "evo7", "evo10", "value", "values"), widen_aliases=wal, union_steps=ust, to_union_steps=tust, tail_records=tails, fixed_vector_records=fvr, reorder_only=ro, enum_bases=eb)
+    newest.speculative = bool(eb)
     # where the previous versions come from: directories next to the package, or commits of one git repository named by URL
     newest.versions_from_git = k.fork("git").chance(0.3)
     return newest
@@ -483,7 +502,15 @@ def model_task(task, ybin, root):
     rng = M.derive(seed, "c05", i)
     newest = make_chain(rng)
     stats, viols, cases = {}, [], []
-    model, old_models = open_models(newest, ybin, root)
+    spec = getattr(newest, "speculative", False) and any(e.startswith("widen_enum_base") for l in getattr(newest, "edit_log", []) for e in l)
+    try:
+        model, old_models = open_models(newest, ybin, root)
+    except P.GeneratorRejected:
+        if spec:
+            return {"stats": {"chains_with_a_widened_enum_base_rejected_by_yardl(as documented: nothing to judge)": 1}, "violations": [], "cases": [], "samples": []}
+        raise
+    if spec:
+        stats["chains_with_a_widened_enum_base_accepted_by_yardl"] = 1
     try:
         try:
             cm = C.CppModel(model.dir)
